@@ -135,14 +135,25 @@ def errCode : ErrKind → Nat
   | .null => 0x00 | .div0 => 0x07 | .value => 0x0F | .ref => 0x17
   | .name => 0x1D | .num => 0x24 | .na => 0x2A | .gettingData => 0x2B
 
+/-- cached result of a FORMULA record -/
+inductive Cached where
+  | num (bits : Nat)
+  /-- string result: FormulaValue type 0, then (ignorable records and) a STRING record -/
+  | str (wide : Bool) (s : List Nat) (between : List Rec)
+  | bool (b : Bool)
+  | err (k : ErrKind)
+  /-- FormulaValue type 3: empty string, no STRING record -/
+  | blank
+  deriving Repr
+
 inductive Phys where
   | number (bits : Nat)
   | rk (w : Nat)
   | label (wide : Bool) (s : List Nat)
   | labelSst (i : Nat)
-  | boolerr (b : Nat) (fErr : Nat)
-  /-- FormulaValue bytes, rgce, and for a string result (packing, text, records before the STRING) -/
-  | formula (value : Bytes) (rgce : Bytes) (str : Option (Bool × List Nat × List Rec))
+  | bool (b : Bool)
+  | err (k : ErrKind)
+  | formula (c : Cached) (rgce : Bytes)
   deriving Repr
 
 structure PC where
@@ -156,6 +167,14 @@ structure PC where
 
 def special (t b : Nat) : Bytes := [byte t, 0, byte b, 0, 0, 0, 0xFF, 0xFF]
 
+/-- the 8-byte FormulaValue field -/
+def cachedBytes : Cached → Bytes
+  | .num x => le64 x
+  | .str _ _ _ => special 0 0
+  | .bool b => special 1 (if b then 1 else 0)
+  | .err k => special 2 (errCode k)
+  | .blank => special 3 0
+
 /-- the record(s) chosen for a value under a layout entry; a choice that cannot represent the value falls
     back to the canonical record (NUMBER, 16-bit LABEL, BOOLERR) -/
 def choose (env : Env) (v : LVal) (e : Enc) : Phys :=
@@ -164,18 +183,19 @@ def choose (env : Env) (v : LVal) (e : Enc) : Phys :=
     if w < 4294967296 ∧ numBits env.ops (rkSpec env.ops w) = x then .rk w else .number x
   | .num x, .formula rgce _ _ _ =>
     -- a FormulaValue whose last two bytes are FF FF is not a number
-    if x / 281474976710656 = 65535 then .number x else .formula (le64 x) (rgce.take 255) none
+    if x / 281474976710656 = 65535 then .number x else .formula (.num x) (rgce.take 255)
   | .num x, _ => .number x
   | .str s, .label wide => .label wide s
-  | .str s, .labelSst i => if env.strings[i]? = some s ∧ s ≠ [] then .labelSst i else .label true s
+  | .str s, .labelSst i =>
+    if i < 4294967296 ∧ env.strings[i]? = some s ∧ s ≠ [] then .labelSst i else .label true s
   | .str s, .formula rgce wide between blank3 =>
-    if s = [] ∧ blank3 then .formula (special 3 0) (rgce.take 255) none
-    else .formula (special 0 0) (rgce.take 255) (some (wide, s, between.filter ignorable))
+    if s = [] ∧ blank3 then .formula .blank (rgce.take 255)
+    else .formula (.str wide s (between.filter ignorable)) (rgce.take 255)
   | .str s, _ => .label true s
-  | .bool b, .formula rgce _ _ _ => .formula (special 1 (if b then 1 else 0)) (rgce.take 255) none
-  | .bool b, _ => .boolerr (if b then 1 else 0) 0
-  | .err k, .formula rgce _ _ _ => .formula (special 2 (errCode k)) (rgce.take 255) none
-  | .err k, _ => .boolerr (errCode k) 1
+  | .bool b, .formula rgce _ _ _ => .formula (.bool b) (rgce.take 255)
+  | .bool b, _ => .bool b
+  | .err k, .formula rgce _ _ _ => .formula (.err k) (rgce.take 255)
+  | .err k, _ => .err k
 
 def planCell (env : Env) (c : LCell) (l : Lay) : PC :=
   { row := c.row, col := c.col, xf := l.xf % 65536, phys := choose env c.val l.enc,
@@ -198,12 +218,13 @@ def physRecs (p : PC) : List Rec :=
   | .rk w => [⟨0x027E, cellHdr p ++ le32 w, []⟩]
   | .label wide s => [⟨0x0204, cellHdr p ++ xlString wide s, []⟩]
   | .labelSst i => [⟨0x00FD, cellHdr p ++ le32 i, []⟩]
-  | .boolerr b f => [⟨0x0205, cellHdr p ++ [byte b, byte f], []⟩]
-  | .formula value rgce str =>
-    ⟨0x0006, cellHdr p ++ value ++ le16 0 ++ le32 0 ++ le16 rgce.length ++ rgce, []⟩ ::
-      (match str with
-       | none => []
-       | some (wide, s, between) => between ++ [⟨0x0207, xlString wide s, []⟩])
+  | .bool b => [⟨0x0205, cellHdr p ++ [byte (if b then 1 else 0), byte 0], []⟩]
+  | .err k => [⟨0x0205, cellHdr p ++ [byte (errCode k), byte 1], []⟩]
+  | .formula c rgce =>
+    ⟨0x0006, cellHdr p ++ (cachedBytes c ++ (le16 0 ++ (le32 0 ++ (le16 rgce.length ++ rgce)))), []⟩ ::
+      (match c with
+       | .str wide s between => between ++ [⟨0x0207, xlString wide s, []⟩]
+       | _ => [])
 
 def isRk (p : PC) : Bool := match p.phys with | .rk _ => true | _ => false
 def rkWord (p : PC) : Nat := match p.phys with | .rk w => w | _ => 0
@@ -222,13 +243,18 @@ def chunk : List PC → List (List PC)
     | g :: gs => if joinable p g then (p :: g) :: gs else [p] :: g :: gs
     | [] => [[p]]
 
+/-- `(ixfe, rk)` pairs of a MULRK run -/
+def runBody (g : List PC) : Bytes := g.flatMap (fun q => le16 q.xf ++ le32 (rkWord q))
+
+/-- MULRK payload: row, first column, the pairs, last column -/
+def mulRkData (row c0 : Nat) (g : List PC) : Bytes :=
+  (le16 row ++ le16 c0) ++ (runBody g ++ le16 (c0 + g.length - 1))
+
 def groupRecs (g : List PC) : List Rec :=
   match g with
   | [] => []
   | [p] => p.before ++ physRecs p
-  | p :: _ :: _ =>
-    p.before ++ [⟨0x00BD, le16 p.row ++ le16 p.col ++ g.flatMap (fun q => le16 q.xf ++ le32 (rkWord q))
-                    ++ le16 (p.col + g.length - 1), []⟩]
+  | p :: _ :: _ => p.before ++ [⟨0x00BD, mulRkData p.row p.col g, []⟩]
 
 /-- the cell records of a logical sheet under a layout -/
 def encodeSheet (env : Env) (S : List LCell) (lays : List Lay) : List Rec :=
